@@ -1,3 +1,3 @@
 SPECIFICATION Spec
-INVARIANTS Served Available FileSizeOK TimeTravelView
+INVARIANTS ServedMissing ServedStale Available SizeBig SizeSmall TimeTravelView
 CHECK_DEADLOCK FALSE
